@@ -21,6 +21,7 @@ class SourceModule(Object):
         self.mtime = getmtime(filename)
         self.declared_at = 1, 0
         self._analysing = False
+        self._partial = False
 
     def __repr__(self):
         # type: () -> str
@@ -31,21 +32,37 @@ class SourceModule(Object):
         # type: () -> bool
         return self.mtime != getmtime(self.filename)
 
-    @cached_property
+    @property
     def scope(self):
         # type: () -> SourceScope
+        try:
+            return self._scope  # type: ignore[no-any-return]
+        except AttributeError:
+            pass
+
         source = Source(open(self.filename).read(), self.filename)
         scope = extract_scope(source, self.project)
+        if self._partial:
+            # analysed inside an import cycle, on top of a module that had
+            # nothing to offer yet: good for this once, not to be kept
+            self._partial = False
+        else:
+            self._scope = scope
         return scope
 
     @property
     def _attrs(self):
         # type: () -> dict[str, Object | Name]
+        stack = self.project.__dict__.setdefault('_analysing_modules', [])
         if self._analysing:
             # reached again through an import cycle while the module is being
-            # analysed: like a partially initialised module it offers nothing yet
+            # analysed: like a partially initialised module it offers nothing
+            # yet - and what is being analysed on top of it rests on that
+            for module in stack[stack.index(self) + 1:]:
+                module._partial = True
             return {}
         self._analysing = True
+        stack.append(self)
         try:
             return self.scope.exported_names  # type: ignore[return-value]
         except SyntaxError:
@@ -53,6 +70,7 @@ class SourceModule(Object):
             # belongs to that file, not to the one being edited
             return {}
         finally:
+            stack.pop()
             self._analysing = False
 
 
